@@ -91,7 +91,7 @@ pub fn into_tokens(c: char, it: &mut Peekable<Chars>, state: &mut State) -> LexR
             {
                 comment.push(it.next().unwrap());
             }
-            create(state, Token::Comment(comment))
+            Ok(state.comment(Token::Comment(comment)))
         }
         '!' => match it.peek() {
             Some('=') => next_and_create(it, state, Token::Neq),
